@@ -113,7 +113,12 @@ func (srv *Session) consumeSingleCommand(ctx context.Context, reader *buffer.Rea
 		return err
 	}
 
+	// NOTE: the closing check and the registration inside the wait group have
+	// to be atomic with respect to Close, otherwise a command which passed the
+	// check could start once Close has returned.
+	srv.mu.RLock()
 	if srv.closing.Load() {
+		srv.mu.RUnlock()
 		return nil
 	}
 
@@ -121,6 +126,7 @@ func (srv *Session) consumeSingleCommand(ctx context.Context, reader *buffer.Rea
 	// NOTE: we increase the wait group by one in order to make sure that idle
 	// connections are not blocking a close.
 	srv.wg.Add(1)
+	srv.mu.RUnlock()
 	verifPoint("cmd.registered")
 	srv.logger.Debug("<- incoming command", slog.Int("length", length), slog.String("type", t.String()))
 	err = srv.handleCommand(ctx, conn, t, reader, writer)
